@@ -523,6 +523,8 @@ def c10(F: Facts):
                     rows = [r for r in (s['results'] if s else []) if r['h'] == f'h{hi}' and r['bus'] == bus]
                     if ev in touched and rows and rows[0]['st'] == 'error':
                         continue
+                    if _timeout_of(F, ev) == 0 and rows and rows[0]['st'] == 'error' and rows[0]['err'] == 'TimeoutError' and F.sc['handlers'][hi]['kind'] not in ('sync', 'method', 'cmethod', 'smethod', 'busmeth'):
+                        continue  # event_timeout=0: an async handler is over time before its first step - a TimeoutError result without the body ever running is the enforcement
                     clause = 'C10.d' if ev in touched or any(k[1] == ev and dd['how'] == 'cancelled' for k, dd in inv.items()) else 'C10.f'
                     v.append((clause, f'event {ev} accepted on {bus}: handler h{hi} never ran (interrupted-by-cancellation={ev in touched}, results={[(r["h"], r["st"]) for r in rows]})'))
         v.extend(all_complete(F, 'C10.e'))
